@@ -26,6 +26,8 @@ PROJECT = {
     'c.aidl': 'package p.q;\n/** e */ @Y\nenum E { /** a */ A = 1, B }\n',
     'd.aidl': 'package p.q;\nparcelable Fwd;\noneway interface J { void p(in Fwd f); oneway void q(); }\n',
     # documentation comments without text (doc = Some("")), no oneway method: must survive on its own
+    # boundary values of the numeric fields (transact codes 0, binder limit -1 / limit, u32::MAX), no oneway method
+    'f.aidl': 'package p.q;\ninterface L { void a() = 0; void b() = 16777214; void c() = 16777215; void d() = 4294967295; void e(); }\n',
     'e.aidl': 'package p.q;\n/** */\nparcelable Q {\n  /**\n   */ int z;\n  /***/ const int W = 1;\n}\n',
 }
 
@@ -204,6 +206,20 @@ def check(run):
                 run.violated('writer and reader of %s are consistent' % sname, 'M', key, dict(w, native_lossy_files=lossy, native=nat), conf, solver_s=tz, queries=max(1, nq))
         else:
             run.holds('struct %s: every skipped field is defaulted by the reader at exactly the skipped value; names agree (%d fields)' % (sname, len(fields)), 'M', queries=max(1, len(fields)))
+    # (e) present fields go through the field type's own Serialize / Deserialize impl: a per-field codec (`with`, `serialize_with`,
+    #     `deserialize_with`) or a container conversion (`from`, `try_from`, `into`) is code the obligations above do not see
+    hooks = sorted({f.name for f in prog.fns if re.search(r'__DeserializeWith|__SerializeWith|__AdjacentlyTagged', f.name)})
+    conv = sorted({f.name for f in prog.fns if re.search(r'ast::_::<impl at [^>]*>::(serialize|deserialize)$', f.name)
+                   and any(re.search(r'as (TryFrom|From|Into|TryInto)<', st) for sts in f.blocks.values() for st in sts)})
+    title = 'every present field is written and read by its own type\'s serde impl (no per-field codec or container conversion between writer and reader)'
+    if hooks or conv:
+        nat = native_rt()
+        lossy = [k for k, v in nat.items() if isinstance(v, dict) and v.get('ast') and not v.get('equal')]
+        plain = [k for k in lossy if k in ('b.aidl', 'c.aidl', 'e.aidl', 'f.aidl')]
+        run.violated(title, 'M', 'field-codec:' + re.sub(r'.*::', '', (hooks + conv)[0])[:40], {'adaptors': (hooks + conv)[:4], 'native_lossy_files': lossy, 'native': {k: nat[k] for k in plain[:1]}}, bool(plain),
+                     detail='adaptor %s sits between writer and reader' % (hooks + conv)[0][-80:])
+    else:
+        run.holds(title, 'M', queries=len(ser), bound='all %d derive-generated writers and their readers' % len(ser))
     run.states += checked_fields
     run.transitions += nq
     nat = native_rt()
